@@ -28,6 +28,38 @@ def field(line, key):
     return m.group(1) if m else ""
 
 
+def qp_summary(lines, undisc):
+    """what the queue-pressure family covered (counts from the result lines of this run)"""
+    by = {"variant": {}, "hold": {}, "unfinished_at_startup": {}, "release": {}, "accepted_while_held": {}}
+    acc = fin = tips = reqs_i = reqs_r = refused = grants = 0
+    nwmax = 0
+    for l in lines:
+        sh = (field(l, "shape") + ":::").split(":")
+        for k, v in (("variant", sh[0]), ("hold", sh[1]), ("unfinished_at_startup", sh[2]), ("release", sh[3]), ("accepted_while_held", field(l, "filled"))):
+            by[k][v] = by[k].get(v, 0) + 1
+        acc += int(field(l, "acc") or 0)
+        fin += int(field(l, "fin") or 0)
+        tips += int(field(l, "blocks") or 0)
+        nwmax = max(nwmax, int(field(l, "wallets") or 0))
+        grants += int((field(l, "steered") or "0/0").split("/")[0])
+        ev = field(l, "obs").split(",")
+        reqs_i += ev.count("ti")
+        reqs_r += ev.count("tr")
+        refused += ev.count("tb")
+    return {
+        "schedules": len(lines),
+        "what": "a multi-round task is running (long: import on a chain of more than 1000 blocks = two rescan rounds; retry: import whose first round is refused because the node silently switched tips), the worker is held "
+                "inside a round (A: after the suspend hand-shake before its transaction, B: after its transaction before resume, C: in suspend() while the follower is held in a block transaction), API callers request "
+                "imports/removals of other wallets until ErrTooManyTask, tips are announced meanwhile, then every pending passage is granted in the schedule's order with further tips/requests while the queue drains; "
+                "kN = N unfinished tasks re-queued by initTaskChan at a restart. Required: every accepted task finishes, every announced tip is processed, Stop returns; the observed sequence must be a path of the "
+                "extracted model with capacity start_cap(#wallet status rows) ending in a terminal idle state.",
+        "by": by,
+        "tasks_accepted": acc, "tasks_finished": fin, "imports_accepted_by_api": reqs_i, "removals_accepted_by_api": reqs_r, "requests_refused_busy": refused,
+        "tips_announced": tips, "handler_worker_passages_granted": grants, "max_wallet_status_rows_at_startup": nwmax,
+        "schedules_a_MaxWaitingTaskNum_slot_queue_would_also_pass": undisc,
+    }
+
+
 def main(tier, replay=None):
     c = V.Check(PID, tier)
     proofs_ok = c.proofs(gen_only=["Consts.v"])
@@ -59,7 +91,8 @@ def main(tier, replay=None):
             if r.get("spec"):
                 lines.append(r["spec"])
         open(sched, "w").write("\n".join(lines) + "\n")
-        nrace = 0
+        nrace = nqp = 0
+        only = sorted(x for x in {v.get("replay", {}).get("scenario", "") for v in rp.get("violations", [])} if x.startswith(("qp/", "race-stop/")))
     else:
         limit = 300 if tier == "quick" else 100000
         rc, o, e = V.sh([exe, "sched", "repaired", str(limit), str(c.seed), tier], timeout=600)
@@ -67,8 +100,12 @@ def main(tier, replay=None):
             return c.finish(TRUSTED, no_input_break="model driver (sched) failed: " + e[-1500:])
         open(sched, "w").write(o)
         nrace = 24 if tier == "quick" else 400
+        # queue-pressure schedules (harness/cmd/c20/pressure.go); more of them when the modelled functions changed
+        nqp = (36 if not c.escalated else 96) if tier == "quick" else 600
+        only = []
     nproj = {field(l, "scenario"): int(field(l, "projections")) for l in V.read_lines(sched) if l.startswith("P ")}
-    rc, o, e = V.sh([outs[0], "-in", sched, "-out", res, "-j", str(JOBS), "-race", str(nrace)], timeout=3000)
+    rc, o, e = V.sh([outs[0], "-in", sched, "-out", res, "-j", str(JOBS), "-race", str(nrace), "-qp", str(nqp)]
+                       + (["-scen", ",".join(only)] if only else []), timeout=3000)
     if rc != 0:
         return c.finish(TRUSTED, no_input_break="harness cmd/c20 failed to run: " + (o + e)[-1500:])
     rc, mo, me = V.sh("%s check < %s" % (exe, res), timeout=1200)
@@ -94,6 +131,7 @@ def main(tier, replay=None):
 
     by_scen, outcomes, distinct = {}, {}, set()
     exact = after_close = 0
+    qp_lines, qp_undiscriminating = [], 0
     for l in rlines:
         rid = field(l, "id")
         scen = rid.split("/")[0]
@@ -103,13 +141,50 @@ def main(tier, replay=None):
         obs = field(l, "obs")
         if len(obs.split(",")) >= 4:
             distinct.add((scen, obs))
-        if field(l, "diverged") == "0" and "/" in rid and not rid.startswith("race-stop"):
+        if field(l, "diverged") == "0" and "/" in rid and not rid.startswith("race-stop") and not rid.startswith("qp/"):
             exact += 1
         if "api_panic_after_close=1" in l:
             after_close += 1
         rep, fnd = field(l, "repaired"), field(l, "found")
-        rerun = "/verif/build/bin/c20 -worker " + ("-spec '%s'" % specs[rid] if rid in specs else "-scenario " + rid)
+        rerun = "VERIF_SEED=%d %s -worker " % (c.seed, outs[0]) + ("-spec '%s'" % specs[rid] if rid in specs else "-scenario " + rid)
         rp = {"id": rid, "spec": specs.get(rid, ""), "scenario": "" if rid in specs else rid, "result": l, "rerun": rerun}
+        if field(l, "qp") == "1":
+            qp_lines.append(l)
+            acc, fin = int(field(l, "acc") or 0), int(field(l, "fin") or 0)
+            tight = field(l, "tight")
+            shape = field(l, "shape")
+            rp["shape"] = shape
+            rp["model"] = {"capacity_start_cap": rep, "capacity_MaxWaitingTaskNum": tight}
+            if out == "busy" or field(l, "stopret") == "0":
+                rp["goroutines"] = stacks.get(rid, [])[:120]
+            bad = False
+            if fin < acc:
+                bad = True
+                unf = field(l, "unfinished")
+                if tight.endswith(":dropped") and not rep.startswith("acc"):
+                    c.violation("accepted-task-never-finishes:requeue-dropped",
+                                "while the wallet runs an ACCEPTED task never finishes (schedule %s, shape %s: %d accepted, %d finished, task queue length %s, both loops parked; %s). "
+                                "The observed sequence %s is not a path of the model with the queue capacity of its start-up rule (%s) but IS a path of the model with a queue of "
+                                "MaxWaitingTaskNum slots ending with a dropped re-queue (C20_requeue_dropped_refuted): the worker's non-blocking re-queue of the task it was running found the queue full"
+                                % (rid, shape, acc, fin, field(l, "taskq"), unf, obs, rep), rp)
+                else:
+                    c.violation("accepted-task-never-finishes", "while the wallet runs an ACCEPTED task does not finish within the bound (schedule %s, shape %s: %d accepted, %d finished, outcome %s; %s; observed %s; model: %s)"
+                                % (rid, shape, acc, fin, out, unf, obs, rep), rp)
+            if field(l, "tipsok") != "1":
+                bad = True
+                c.violation("announced-tip-never-processed", "an announced tip is not processed within the bound (schedule %s, shape %s: synced %s, outcome %s, observed %s)" % (rid, shape, field(l, "synced"), out, obs), rp)
+            if field(l, "stopret") == "0":
+                bad = True
+                c.violation("stop-hang", "WalletManager.Stop() did not return after a queue-pressure schedule (%s, shape %s)" % (rid, shape), rp)
+            if not bad and out != "idle":
+                bad = True
+                c.violation("no-quiescence", "handler/worker did not become idle after all announced blocks and accepted tasks (schedule %s, shape %s, observed %s)" % (rid, shape, obs), rp)
+            if not bad and not rep.startswith("acc"):
+                c.violation("trace-not-in-model:" + rep.split(":", 1)[-1],
+                            "the real goroutines produced an event sequence that is not a path of the transition system (schedule %s, shape %s): %s outcome %s [%s]" % (rid, shape, obs, out, rep), rp)
+            if not bad and rep.startswith("acc") and tight.startswith("acc"):
+                qp_undiscriminating += 1
+            continue
         if out == "hang":
             rp["goroutines"] = stacks.get(rid, [])[:120]
             rp["threads"] = dlines.get(rid, "")
@@ -134,8 +209,8 @@ def main(tier, replay=None):
         "rule": "one evaluation = one schedule run on the real goroutines in its own process: (a) the distinct observable projections (block queued, task queued, handler/worker transaction begin/end, Stop, DB closed) "
                 "of the maximal paths of the repaired model for the scenarios below, steered through the database gates; quick tier: a seeded sample of %d of %s; "
                 "(b) 3 fixed regression probes (f1det-remove, f1det-import: the deterministic F1 schedule using a held KeystoreManager mutex; nilrace: import while the worker goroutine has not run); "
-                "(c) %d unsteered request/Stop races. distinct_nontrivial = distinct (scenario, observed sequence) pairs with at least 4 events. "
-                "Every observed sequence + outcome is checked for membership in the model by subset simulation." % (len(specs), sum(nproj.values()), nrace),
+                "(c) %d unsteered request/Stop races; (d) %d queue-pressure schedules (see queue_pressure). distinct_nontrivial = distinct (scenario, observed sequence) pairs with at least 4 events. "
+                "Every observed sequence + outcome is checked for membership in the model by subset simulation." % (len(specs), sum(nproj.values()), nrace, nqp),
         "by_scenario": by_scen,
         "outcomes": outcomes,
         "schedules_followed_exactly": exact,
@@ -147,11 +222,12 @@ def main(tier, replay=None):
                                                  "(reached only through the KeystoreManager-mutex trick of the f1det probes), handler between a select wake-up and BeginTx, the instant between close(quit) and quitWg.Wait; the choice of a `select` with several ready branches cannot be forced "
                                                  "(schedules that need a particular choice are followed up to that point and the rest of the run is still checked for membership)",
         "api_calls_after_database_close_that_panicked": after_close,
+        "queue_pressure": qp_summary(qp_lines, qp_undiscriminating),
         "samples": rlines[:4] + rlines[len(rlines) // 2: len(rlines) // 2 + 3] + rlines[-3:],
         "disagreements_checked": len(rlines),
         "mismatches": len(c.violations),
     })
-    c.assumptions = ["import = one batch, removal = one phase-2 round in the replayed scenarios (chains shorter than 1000 blocks, fewer than 20000 credits); the theorems cover any number",
+    c.assumptions = ["import = one batch in the steered model schedules, two batches (chain of 1001..1030 blocks, or one refused + one accepted batch) in the queue-pressure schedules; removal = one phase-2 round (fewer than 20000 credits); the theorems cover any number",
                      "API requests issued after the database was closed are expected to fail; RemoveWallet then panics on a nil bucket instead of returning an error (counted above, reported under C19, not a C20 violation)"]
     brk = None
     if xlines and not c.violations:
